@@ -17,6 +17,7 @@ import (
 	"verifharness/locklog"
 	"verifharness/vh"
 
+	"github.com/alicebob/miniredis/v2"
 	"github.com/projecteru2/core/cluster/calcium"
 	"github.com/projecteru2/core/lock"
 	clientv3 "go.etcd.io/etcd/client/v3"
@@ -44,6 +45,8 @@ type result struct {
 	infra      string // non-empty: the infrastructure of the run failed
 	unlockErrs int
 	hbMs       int64 // etcd: largest heartbeat write latency during the run
+	gapMs      int64 // largest scheduling gap of the in-process probe during the run
+	pingMs     int64 // redis: largest PING latency against the run's miniredis
 	attempts   int
 	errs       []string // texts of errors canonicalised to FOther (diagnosis only)
 	rank       []int    // calcium/etcd: provisional contender id -> emitted index (rank of its lease)
@@ -68,6 +71,10 @@ func corpus(backend string) []plan {
 	}
 	if backend == "redis" {
 		ps = append(ps, plan{Name: "f-acquire-on-retry", C: []cplan{lk(0, 200, 1200), lk(50, 10, 1200)}})
+		// a try-lock on a lock that stays held well beyond the try-lock bound, and one
+		// started 100 ms before the holder leaves (a retrying try-lock would get in)
+		ps = append(ps, plan{Name: "g-trylock-long-hold", C: []cplan{lk(0, 900, 1200), try(50, 10, 1200)}})
+		ps = append(ps, plan{Name: "h-trylock-before-exit", C: []cplan{lk(0, 400, 1200), try(300, 10, 1200)}})
 	} else {
 		// etcd wait time-outs are >= 300 ms (see stalled below)
 		ps[2] = plan{Name: "c-wait-timeout", C: []cplan{lk(0, 700, long), lk(50, 10, 300)}}
@@ -78,6 +85,21 @@ func corpus(backend string) []plan {
 func randomPlan(r *vh.Run, backend string, k int) plan {
 	n := 2 + r.Rng.Intn(5)
 	p := plan{Name: fmt.Sprintf("random-%d", k)}
+	if backend == "redis" && r.Rng.Intn(10) < 3 {
+		// one long holder; the others start inside its hold, half of them with
+		// TryLock; time-outs above the 500 ms retry period
+		p.Name = fmt.Sprintf("random-holder-%d", k)
+		hold := 400 + r.Rng.Intn(501)
+		p.C = append(p.C, cplan{Op: locklog.OpLock, DelayMs: 0, HoldMs: hold, TmoMs: 600 + r.Rng.Intn(601)})
+		for i := 1; i < n; i++ {
+			c := cplan{Op: locklog.OpLock, DelayMs: 20 + r.Rng.Intn(hold-70), HoldMs: 5 + r.Rng.Intn(46), TmoMs: 600 + r.Rng.Intn(601)}
+			if r.Rng.Intn(2) == 0 {
+				c.Op = locklog.OpTry
+			}
+			p.C = append(p.C, c)
+		}
+		return p
+	}
 	// a third of the plans have long critical sections, so that waiting Locks
 	// also run into their time-out
 	slow := r.Rng.Intn(3) == 0
@@ -260,7 +282,9 @@ func runEtcdCalcium(env *locklog.Etcd, c *calcium.Calcium, key string, p plan) (
 		}
 		return result{evs: locklog.Unacceptable(), infra: "setup: " + err.Error()}
 	}
+	probe := locklog.StartProbe("")
 	locks := runCalciumContenders(c, key, p, &res)
+	res.gapMs, _ = probe.Stop()
 	res.hbMs = env.MaxLatency(t0, time.Now()).Milliseconds()
 	leases := make([]clientv3.LeaseID, len(locks))
 	for i, l := range locks {
@@ -298,7 +322,9 @@ func runEtcd(env *locklog.Etcd, key string, p plan) (res result) {
 		}
 		return result{evs: locklog.Unacceptable(), infra: "setup: " + err.Error()}
 	}
+	probe := locklog.StartProbe("")
 	runContenders(run.Locks, p, &res)
+	res.gapMs, _ = probe.Stop()
 	res.hbMs = env.MaxLatency(t0, time.Now()).Milliseconds()
 	muts, err := run.Finish()
 	if err != nil {
@@ -309,38 +335,69 @@ func runEtcd(env *locklog.Etcd, key string, p plan) (res result) {
 	return res
 }
 
-// stalled: the embedded cluster was too slow during the run for the run to be
-// meaningful — some heartbeat write took at least half the smallest wait
-// time-out, so a time-out may have fired inside an RPC (which the model leaves
-// out).  Decided from the heartbeat only, never from what the contenders saw.
-func stalled(p plan, res result) bool {
+// notValidated: the timing of the run could not be validated, so it must not
+// be emitted (it is repeated, then dropped and counted).  Decided from the
+// independent probes only, never from what the contenders saw.
+//   - every run: the in-process scheduling probe saw a gap of 100 ms or more
+//     (the wall-clock bounds of ok18 — a try-lock returns within 300 ms — would
+//     measure this process, not the lock);
+//   - etcd: some heartbeat write to the embedded cluster took at least half the
+//     smallest wait time-out (a time-out may then fire inside an RPC, which the
+//     model leaves out), or 100 ms or more in a plan with a TryLock (two RPCs);
+//   - redis: a PING against the run's miniredis took 100 ms or more.
+const probeLimitMs = 100
+
+func hasTry(p plan) bool {
+	for _, c := range p.C {
+		if c.Op == locklog.OpTry {
+			return true
+		}
+	}
+	return false
+}
+
+func notValidated(backend string, p plan, res result) bool {
+	if res.gapMs >= probeLimitMs {
+		return true
+	}
+	if backend == "redis" {
+		return res.pingMs >= probeLimitMs
+	}
 	min := p.C[0].TmoMs
 	for _, c := range p.C {
 		if c.TmoMs < min {
 			min = c.TmoMs
 		}
 	}
-	return res.hbMs*2 >= int64(min)
+	return res.hbMs*2 >= int64(min) || (hasTry(p) && res.hbMs >= probeLimitMs)
 }
 
-// runEtcdRetry repeats a stalled (or infrastructure-failed) run on a fresh key,
-// at most four attempts; a run that is still stalled after the last attempt is
-// dropped by the caller (counted in the evidence), never emitted.
+// runEtcdRetry repeats a not validated (or infrastructure-failed) run on a
+// fresh key, at most four attempts; a run that is still not validated after the
+// last attempt is dropped by the caller (counted in the evidence), never emitted.
 func runEtcdRetry(env *locklog.Etcd, k int, p plan) (res result) {
 	for a := 1; ; a++ {
 		res = runEtcd(env, fmt.Sprintf("k%d-%d", k, a), p)
 		res.attempts = a
-		if a == 4 || (res.infra == "" && !stalled(p, res)) {
+		if a == 4 || (res.infra == "" && !notValidated("etcd", p, res)) {
 			return res
 		}
 	}
 }
 
-func runRedis(cal *calcium.Calcium, key string, p plan) (res result) {
+// redisEnv: the Calcium (and its miniredis) of the cluster-level redis runs
+type redisEnv struct {
+	cal *calcium.Calcium
+	mr  *miniredis.Miniredis
+}
+
+func runRedis(e *redisEnv, key string, p plan) (res result) {
 	if p.Via == "calcium" {
 		// one Calcium on one miniredis for all cluster-level runs (distinct keys;
 		// miniredis time never advances in C18)
-		runCalciumContenders(cal, "c"+key, p, &res)
+		probe := locklog.StartProbe(e.mr.Addr())
+		runCalciumContenders(e.cal, "c"+key, p, &res)
+		res.gapMs, res.pingMs = probe.Stop()
 		return res
 	}
 	run, err := locklog.NewRedisRun(key, ttls(p))
@@ -348,8 +405,20 @@ func runRedis(cal *calcium.Calcium, key string, p plan) (res result) {
 		return result{evs: locklog.Unacceptable(), infra: "setup: " + err.Error()}
 	}
 	defer run.Close()
+	probe := locklog.StartProbe(run.S.Addr())
 	runContenders(run.Locks, p, &res)
+	res.gapMs, res.pingMs = probe.Stop()
 	return res
+}
+
+func runRedisRetry(e *redisEnv, k int, p plan) (res result) {
+	for a := 1; ; a++ {
+		res = runRedis(e, fmt.Sprintf("k%d-%d", k, a), p)
+		res.attempts = a
+		if a == 4 || (res.infra == "" && !notValidated("redis", p, res)) {
+			return res
+		}
+	}
 }
 
 func stream(t *testing.T, backend string, exec func(k int, p plan) result) {
@@ -378,9 +447,9 @@ func stream(t *testing.T, backend string, exec func(k int, p plan) result) {
 	dropped := 0
 	for k, p := range plans {
 		res := results[k]
-		if backend == "etcd" && res.infra == "" && stalled(p, res) {
-			// the environment, not the code under test, decided this run (see stalled)
-			r.Count("runs_dropped_etcd_stalled")
+		if res.infra == "" && notValidated(backend, p, res) {
+			// the environment, not the code under test, decided this run (see notValidated)
+			r.Count("runs_dropped_timing_not_validated")
 			dropped++
 			continue
 		}
@@ -418,10 +487,13 @@ func stream(t *testing.T, backend string, exec func(k int, p plan) result) {
 		}
 		if backend == "etcd" {
 			desc["etcd_max_write_latency_ms"] = res.hbMs
-			desc["attempts"] = res.attempts
-			if res.attempts > 1 {
-				r.Count(fmt.Sprintf("runs_repeated_after_etcd_stall=%d", res.attempts-1))
-			}
+		} else {
+			desc["redis_max_ping_latency_ms"] = res.pingMs
+		}
+		desc["max_scheduling_gap_ms"] = res.gapMs
+		desc["attempts"] = res.attempts
+		if res.attempts > 1 {
+			r.Count(fmt.Sprintf("runs_repeated_timing_not_validated=%d", res.attempts-1))
 		}
 		r.Count("backend=" + backend)
 		r.Count("via=" + p.Via)
@@ -438,15 +510,16 @@ func stream(t *testing.T, backend string, exec func(k int, p plan) result) {
 		}
 		r.Add(term, desc, map[string]any{"backend": backend, "n": len(p.C), "via": p.Via}, contention)
 	}
-	if dropped*2 > len(plans) {
-		t.Fatalf("more than half of the etcd runs were dropped because the embedded cluster stalled (%d of %d)", dropped, len(plans))
+	if dropped > 0 {
+		// never a failure: the evidence says how many runs could not be validated
+		t.Logf("C18 %s: %d of %d runs dropped (timing not validated)", backend, dropped, len(plans))
 	}
 	r.Finish("corpus of fixed plans (hand-over, busy try-lock, wait time-out, six lockers, uncontended lock / try-lock" +
-		", redis: acquisition on the 500 ms retry) then random plans: 2..6 contenders, Lock (70%) or TryLock, start delay 0..60 ms," +
-		" hold 5..50 ms (a third of the plans: 100..350 ms), wait time-out 300..999 ms (etcd) / 100..1200 ms (redis); one goroutine and one lock object" +
-		" (real store.CreateLock) per contender on the real " + backend + " backend; etcd: a run during which a heartbeat write" +
-		" to the embedded cluster took at least half the smallest wait time-out is repeated (at most twice) on a fresh key," +
-		" independently of what the contenders observed; then the same kind of plans (3 fixed: hand-over, wait time-out, six lockers; 8 quick / 100 thorough random, Lock only)" +
+		", redis: acquisition on the 500 ms retry, a try-lock 50 ms into a 900 ms hold, a try-lock 100 ms before the end of a 400 ms hold) then random plans: 2..6 contenders, Lock (70%) or TryLock, start delay 0..60 ms," +
+		" hold 5..50 ms (a third of the plans: 100..350 ms), wait time-out 300..999 ms (etcd) / 100..1200 ms (redis); redis, 30% of the random plans: one holder for 400..900 ms, the others start inside its hold, half of them with TryLock, time-outs 600..1200 ms; one goroutine and one lock object" +
+		" (real store.CreateLock) per contender on the real " + backend + " backend; timing validation, independent of what the contenders observed: a run is repeated (at most three times) on a fresh key and then dropped and counted, never emitted," +
+		" when the in-process scheduling probe (5 ms sleeps) saw a gap of 100 ms or more, when (etcd) a heartbeat write" +
+		" to the embedded cluster took at least half the smallest wait time-out (100 ms or more in a plan with a TryLock), or when (redis) a PING against the run's miniredis took 100 ms or more; then the same kind of plans (3 fixed: hand-over, wait time-out, six lockers; 8 quick / 100 thorough random, Lock only)" +
 		" through the cluster-level cluster/calcium/lock.go (tag via=calcium): each contender calls the real Calcium.doLock (CreateLock + Lock, own rollback Unlock on failure)" +
 		" and doUnlock through the verif hook file; etcd: contenders are identified by the session lease read from the returned lock object and renumbered by lease rank;" +
 		" non-trivial = some contender" +
@@ -466,10 +539,10 @@ func TestC18(t *testing.T) {
 	if env.C, _, err = locklog.NewCalcium(t, "etcd", 2*time.Second); err != nil {
 		t.Fatalf("calcium/etcd: %v", err)
 	}
-	rcal, _, err := locklog.NewCalcium(t, "redis", 2*time.Second)
-	if err != nil {
+	renv := &redisEnv{}
+	if renv.cal, renv.mr, err = locklog.NewCalcium(t, "redis", 2*time.Second); err != nil {
 		t.Fatalf("calcium/redis: %v", err)
 	}
 	stream(t, "etcd", func(k int, p plan) result { return runEtcdRetry(env, k, p) })
-	stream(t, "redis", func(k int, p plan) result { return runRedis(rcal, fmt.Sprintf("k%d", k), p) })
+	stream(t, "redis", func(k int, p plan) result { return runRedisRetry(renv, k, p) })
 }
